@@ -679,6 +679,9 @@ def finding_key(case, run):
     multi_obj = case['objective']['multi']
     init_invalid = obs['metric_in'][0] == 'I'
     if iopt_all_trials_invalid(case, run):
+        if multi_obj and case['objective'].get('fail'):
+            return ('C19.multiobj-invalid-tuned-raises',
+                    'IOptTuner, multi-objective, objective valid on the input but invalid on the tuned assignments')
         return ('C19.iopt-all-trials-invalid',
                 'IOptTuner: every point iOpt evaluated is invalid, iOpt hands back its shared default solution '
                 '(AttributeError in a fresh process, a stale point of an earlier run otherwise)')
